@@ -38,7 +38,8 @@ def py_first_unfit(info, which, limit=2000):
         if not py_accepts(info["setters"][which], p):
             continue
         fmt = a["fmt_max"] if (a["fmt_max"] is not None and p == info["maxp"]) else a["fmt_dec"]
-        if max_text(fmt, p) + 1 > a["coef"] * max(p, 1) + a["const"]:
+        size = a["coef"] * max(p, 1) + a["const"]
+        if max_text(fmt, p) + 1 > size or size > 65536:         # NumText.vla_limit
             return p
     return None
 
